@@ -314,10 +314,25 @@ func (i *interpreter) symBinop(op token.Token, x, y value) value {
 		a, b := term(x), term(y)
 		switch op {
 		case token.ADD:
+			// +0.0 + x = x when x is the conversion of a signed integer (never -0, NaN or inf)
+			const fpZero = "((_ to_fp 11 53) #x0000000000000000)"
+			const fromInt = "((_ to_fp 11 53) RNE "
+			if a == fpZero && strings.HasPrefix(b, fromInt) {
+				return y
+			}
+			if b == fpZero && strings.HasPrefix(a, fromInt) {
+				return x
+			}
+			if b < a { // IEEE addition is commutative: canonical operand order
+				a, b = b, a
+			}
 			return i.ps.name(sym{k, "(fp.add RNE " + a + " " + b + ")"})
 		case token.SUB:
 			return i.ps.name(sym{k, "(fp.sub RNE " + a + " " + b + ")"})
 		case token.MUL:
+			if b < a { // IEEE multiplication is commutative: canonical operand order
+				a, b = b, a
+			}
 			return i.ps.name(sym{k, "(fp.mul RNE " + a + " " + b + ")"})
 		case token.QUO:
 			return i.ps.name(sym{k, "(fp.div RNE " + a + " " + b + ")"})
